@@ -1098,6 +1098,25 @@ pub async fn run_behaviour<TC: HasRef>(b: &Value, tr: &mut Tracer) {
     let labels: Vec<String> = b["labels"].as_array().unwrap().iter().map(|x| x.as_str().unwrap().to_string()).collect();
     let values: Vec<String> = b["values"].as_array().unwrap().iter().map(|x| x.as_str().unwrap().to_string()).collect();
     let conc = b["conc"].as_u64().unwrap_or(0);
+    // bootstrap: a read-only directory refuses storage without an epoch record; a directory creates it;
+    // opening again finds it (epoch 0, nothing else changes)
+    let boot = {
+        let db = HookDb::new();
+        let m = cell.manager(db.clone());
+        let ro_empty = ReadOnlyDirectory::<TC, _, _>::new(m.clone(), HardCodedAkdVRF {}, cell.parallelism()).await.is_ok();
+        let d1 = Directory::<TC, _, _>::new(m.clone(), HardCodedAkdVRF {}, cell.parallelism()).await;
+        let e1 = match &d1 {
+            Ok(d) => d.get_epoch_hash().await.map(|e| e.0 as i64).unwrap_or(-1),
+            Err(_) => -1,
+        };
+        let ro_after = ReadOnlyDirectory::<TC, _, _>::new(cell.manager(db.clone()), HardCodedAkdVRF {}, cell.parallelism()).await.is_ok();
+        let d2 = Directory::<TC, _, _>::new(cell.manager(db.clone()), HardCodedAkdVRF {}, cell.parallelism()).await;
+        let same_root = match (&d1, &d2) {
+            (Ok(a), Ok(b)) => a.get_epoch_hash().await.ok() == b.get_epoch_hash().await.ok(),
+            _ => false,
+        };
+        json!({"ev": "bootstrap", "readonly_on_empty": ro_empty, "epoch_after_new": e1, "readonly_after_new": ro_after, "reopen_same_root": same_root})
+    };
     let mut ctx = DirCtx::<TC>::new(conc, cell.clone(), labels, values).await;
     if let Some(k) = b["kinds"].as_array() {
         ctx.kinds = k.iter().map(|x| x.as_str().unwrap().to_string()).collect();
@@ -1108,6 +1127,7 @@ pub async fn run_behaviour<TC: HasRef>(b: &Value, tr: &mut Tracer) {
     }
     tr.emit(json!({"ev": "reset", "cfg": TC::NAME, "conc": conc, "cell": cell.to_json(), "root0": rid(&ctx.roots[0]),
         "id": b["id"]}));
+    tr.emit(boot);
     let sweep_every = b["sweep"].as_str().unwrap_or("end") == "every";
     let mut remote: Option<DirCtx<TC>> = None;
     let steps = b["steps"].as_array().unwrap();
